@@ -11,7 +11,7 @@ from .common import hx, unhx
 from . import reqgen, c02
 
 ID = 'C06'
-GEN_DEPS = ['GenReqHeaders', 'GenResHeaders', 'GenStatus', 'GenConsts']
+GEN_DEPS = ['GenReqHeaders', 'GenResHeaders', 'GenStatus', 'GenConsts', 'GenSession']
 RULE = ('request sequences (1-4 requests, bodies 0-3000 bytes) x segmentations of their concatenated bytes: every single split point of the body region, split between head and body, several '
         'splits inside the body, chunks larger than the buffer; plus the two unsupported classes (split points inside a head, coalesced requests) which must reproduce the recorded findings; '
         'non-trivial = a segmentation that differs from the canonical one; distinct by canonical JSON')
@@ -21,8 +21,9 @@ BUF = 1024
 
 
 def classify(reqs, script):
-    """'supported' | 'head_split' | 'coalesced' | 'refused_body' for a segmentation of the concatenation of reqs = [(head, body)].
-    ('refused_body': a request the parser refuses — the session answers it and goes on — carries body bytes that its starting read did not bring: they are then taken for the next request)
+    """'supported' | 'head_split' | 'coalesced' for a segmentation of the concatenation of reqs = [(head, body)].
+    (a request the parser refuses is answered and ends the session, wherever its body bytes are: such segmentations are 'supported' — they were the class
+    'refused_body' of known finding KF-C06-refused-body until the session loop was repaired)
     Read discipline (the documented limits of Request::read): a request is started by ONE read of at most BUF bytes, which returns what is left of the
     segment it falls in; the part of the body that read did not bring is then read exactly (any number of reads, never beyond the body).  So a request
     starts at a read boundary iff the starting read of the previous one did not reach beyond that request's end."""
@@ -35,7 +36,6 @@ def classify(reqs, script):
         seg_end = next((e for e in ends if e > s), s)
         r_end = s + min(BUF, seg_end - s)                     # the starting read brings [s, r_end)
         if r_end < s + hl: cls = 'head_split'
-        elif b and r_end < s + tl and cls == 'supported' and c02.spec_parse(h, b)[0] != 'ok': cls = 'refused_body'
         pos = s + tl
         if r_end > pos and pos < ends[-1]: return 'coalesced'          # bytes of the next request came with it
     return cls
